@@ -10,6 +10,8 @@ decimal nanoseconds.  One answer token per input pattern.
   `V <D|F|N|P|Q> x`  division, freq (bits), period (ns) of one configuration
   `SF n h…` / `SN n h…` / `SP n ns…` / `SQ n ns…` / `SD n d…`  `STMConfig::…(x).into_sampling_config(n)?.division()`
   `E <foci|gain> <D|F|N|P|Q> x n`  the same through the driver and the firmware emulator
+  `E mod <D|F|N|P|Q> x`  `SamplingConfig::…(x)` as the rate of a modulation, read back from the emulator's
+                          modulation division register (= `division`)
 `f32ops`:
   `div a b` `mul a b` `ofnat n` `round a` `u16 a` `isint a` `le a b` `lt a b` `clamp x lo hi` `s24 a`
 -/
@@ -105,6 +107,10 @@ def answer (ws : List String) : String :=
   | "SP" :: n :: xs => manyStm "P" n xs
   | "SQ" :: n :: xs => manyStm "Q" n xs
   | "SD" :: n :: xs => manyStm "D" n xs
+  | ["E", "mod", k, x] =>
+    match cfgOf k x with
+    | some c => resTok (division c)
+    | none => "bad-op"
   | ["E", g, k, x, n] =>
     if g = "foci" ∨ g = "gain" then
       match stmOf k x, n.toNat? with
